@@ -232,6 +232,8 @@ def blocked_one(args):
                 sleep(0.01)
             ctx.quiesce()
         broker.silent = True
+        if sc.get('answer_open'):
+            broker.silent_except = ('Channel.OpenOk',)       # the Channel.Open of the chan-open blocker is still answered
         for i, b in enumerate(names):
             if b not in ('body', 'close'):
                 threads.append(ctx.spawn(runner(i, b), 'blk%d-%s' % (i, b)))
@@ -614,6 +616,8 @@ def check(rep):
         sc = {'blockers': bl, 'kind': kind, 'fault_ms': rng.choice([0, 3, 10, 17, 25, 40]), 'idle_ms': rng.choice([5, 30, 60, 120])}
         if kind in ('eof', 'reset') and rng.random() < 0.5:
             sc['tls'] = True
+        if 'chan-open' in bl and any(b in ('rpc', 'confirm', 'get', 'consume', 'pde', 'gen') for b in bl) and rng.random() < 0.6:
+            sc['answer_open'] = True
         if rng.random() < 0.15:
             sc['broker_close_first'] = True
         elif kind in ('poll-error', 'epipe-write') and rng.random() < 0.6:
@@ -714,6 +718,8 @@ def judge_blocked(rep, sc, seed, r, bound, idle):
             continue
         if b == 'close' and end[0] == 'returned':
             pass
+        elif end[0] == 'returned' and b == 'chan-open' and sc.get('answer_open'):
+            pass        # the broker answered the Channel.Open before the transport died: the call may well have succeeded
         elif end[0] == 'returned':
             rep.violation('C06/failure-lost/%s' % b, 'thread %d (%s) returned normally although the transport died and the broker was silent' % (i, b), replay)
             continue
